@@ -2,20 +2,38 @@
 {'harness': 'c07',
  'props': 'Props/C07.v',
  'models': ['Model/Edi.v'],
- 'trusted': ['go-corelib strs.ByteIndexWithEsc/ByteSplitWithEsc/ByteUnescape and the parts of Go '
-             'bytes.Index/bytes.Split they fall back to are transcribed by hand from go-corelib@v0.0.14 '
-             '(outside /repo); tied to the code by the correspondence cases only',
-             'the byte-stream scanner (bufio.Scanner + ios.NewScannerByDelim3, 128-byte initial buffer, '
-             'growth) is modelled as the pure function scan_tokens (cut after every unescaped segment '
-             'delimiter, drop what follows the last one) and ignore_crlf (two ios.BytesReplacingReader) as '
-             'strip_crlf; the two scanner flags and ReaderBufSize are extracted from edi/reader.go on every '
-             'run (Gen/EdiConsts.v; scan_tokens and its proof depend on them); chunking/buffer growth is '
-             'property C09; the harness feeds segments longer than the initial buffer through '
-             'full/half/one-byte readers so a slicing fault at growth fails the oracle',
-             'the segment hierarchy machine of ediReader is property C05; here the full reader runs over one '
-             'non-group segment declaration (min 0, max unbounded)',
-             'utf8.DecodeRune as transcribed in Base/Utf8.v; rune/segment counters and error message texts '
-             'are not modelled'],
+ 'trusted': ['PROVED over the model (25 theorems, Props/C07.v): ByteIndexWithEsc / ByteSplitWithEsc / '
+             'ByteUnescape specifications for ALL byte strings; the round trip (edi_roundtrip, '
+             'edi_elem_nodes, edi_full_roundtrip) for every configuration with cfg_ok and all logical '
+             'segments; rawSegToNode for ALL raw segments and declaration lists (seg_to_node_spec, never a '
+             'panic, fatal result last); the accounting of every input byte for ALL configurations and '
+             'inputs (edi_tokens_cover, edi_tokens_complete under its guard, edi_trailing_refuted = F8); the '
+             'terminal class of the EDI errors (edi_errors_terminal); the gap between cfg_ok and schema '
+             'validation (edi_validation_gap)',
+             'EXTRACTED from /repo on every run and used by the model and the proofs (an unrecognised shape '
+             'or a changed value makes the C07 theorems stop checking; nothing else imports these files): '
+             'Gen/EdiConsts.v (scannerFlags: EOF not a delimiter, delimiter kept in the token; '
+             'ReaderBufSize); Gen/EdiShape.v (readToken cuts the segment delimiter by length; the LF rule: '
+             'delimiter literal, suffix literal, bytes dropped; the blank runes of runeCountAndHasOnlyCRLF; '
+             'the byte sequences ignore_crlf replaces by nothing, their order, and that nothing else wraps '
+             'the input in NewNonValidatingReader; the constructors hence classes of the '
+             'missing-segment-name / missing-element / wrapped reader errors; the use-the-default condition '
+             'of rawSegToNode; the default component index of Elem.compIndex; minLength / required of the '
+             'five delimiter strings in ediFileDeclaration.json); Gen/Continuable.v (IsContinuableError of '
+             'the EDI reader and of the ingester)',
+             'TRANSCRIBED BY HAND, compared only (correspondence cases: 1500 per quick run, every model '
+             'function a theorem talks about is evaluated by check_case: nv_read_all, full_results / '
+             'seg_to_node, edi_encode, exp_seg, exp_full, the extracted classes): go-corelib '
+             'strs.ByteIndexWithEsc/ByteSplitWithEsc/ByteUnescape and the parts of Go '
+             'bytes.Index/bytes.Split they fall back to (go-corelib@v0.0.14 lives outside /repo); the loop '
+             'structure of readToken (element -> repetition -> component splitting, ElemIndex/CompIndex '
+             'numbering) and of rawSegToNode',
+             'MODELLED AS PURE FUNCTIONS: the byte-stream scanner (bufio.Scanner + ios.NewScannerByDelim3, '
+             'buffer growth) is scan_tokens, ios.BytesReplacingReader is strip_seqs; chunking / buffer '
+             'growth is property C09 (the harness feeds segments longer than the initial buffer through '
+             'full/half/one-byte readers); the segment hierarchy machine of ediReader is property C05 (here: '
+             'one non-group segment declaration, min 0, max unbounded); utf8.DecodeRune as transcribed in '
+             'Base/Utf8.v; rune/segment counters and message texts are not modelled'],
  'assumptions': ['cfg_ok (edi_roundtrip, edi_elem_nodes, edi_full_roundtrip, unescape_escape): the '
                  'delimiters in use and the release character are non-empty byte strings whose first rune '
                  'utf8.DecodeRune decodes and is not U+FFFD (any valid UTF-8 string not starting with U+FFFD '
@@ -36,6 +54,28 @@
                  'dropped (edi_trailing_refuted = DESIGN section 6 F8; edi_tokens_cover accounts for every '
                  'other byte of every input; edi_tokens_complete holds under the guard "the input is a '
                  'sequence of terminated segments")',
-                 'segment delimiter non-empty (schema minLength 1)',
                  'edi_tokens_cover / edi_tokens_complete / strip_crlf_spec need no cfg_ok: any configuration '
-                 'with non-empty segment and element delimiters']}
+                 'with non-empty segment and element delimiters',
+                 'cfg_ok is NOT enforced by schema validation (the JSON schema only demands non-empty '
+                 'strings): edi_validation_gap exhibits an accepted configuration (element delimiter "*?", '
+                 'release character "?") that loses a segment; recorded as a gap, not repaired',
+                 'seg_to_node_spec, full_results_total, full_results_fatal_last, edi_errors_terminal need no '
+                 'hypothesis at all'],
+ 'level_text': 'Coq theorems over a Gallina model of go-corelib '
+               'ByteIndexWithEsc/ByteSplitWithEsc/ByteUnescape, NonValidatingReader.Read/readToken and '
+               'rawSegToNode: specifications of the three escape-aware primitives for all byte strings; the '
+               'round trip tokenise(edi_encode) = logical (ElemIndex, CompIndex, data) and unescape = data '
+               'for every non-overlapping delimiter configuration (any decodable first rune, single- or '
+               'multi-byte) and all logical segments incl. the CR/LF rules; declared element lookup / '
+               'default / empty_if_missing / fatal for all declaration lists and all raw segments; '
+               'accounting of every input byte for all configurations and inputs with the F8 witness; error '
+               'classes tied to the extracted IsContinuableError table. Constants, flags, error constructors '
+               'and the shape of the delimiter stripping are regenerated from the source on every run '
+               '(Gen/EdiConsts.v, Gen/EdiShape.v) and the theorems are re-proved over them; the model is '
+               'tied to /repo by a correspondence check that runs edi.NewNonValidatingReader and '
+               'edi.NewReader and the model (vm_compute inside coqc) on the same generated bytes, and the '
+               'round-trip oracle is evaluated on the implementation for every case.',
+ 'level_note': 'Trusted: Coq kernel + vm_compute, the Go harness and extractor; go-corelib and the Go stdlib '
+               'pieces are transcribed by hand and compared only; scanner / replacing readers as pure '
+               'functions (C09), hierarchy machine (C05). No axioms (Print Assumptions: closed). cfg_ok is '
+               'stronger than what schema validation enforces (edi_validation_gap).'}
